@@ -533,7 +533,10 @@ void splinetable<Alloc>::write_fits(const std::string& filePath) const{
 		throw std::runtime_error("CFITSIO failed to finish writing "+filePath+": Error "+std::to_string(error));
 	}
 	//CFITSIO does not report all failures to flush or position the file, so
-	//make sure that all of the data arrived.
+	//make sure that all of the data arrived. (A file name ending in .gz makes
+	//CFITSIO compress the file while closing it; the size of the result
+	//cannot be predicted.)
+	if (filePath.size()<3 || filePath.compare(filePath.size()-3,3,".gz")!=0)
 	{
 		std::ifstream written(filePath.c_str(), std::ios::binary|std::ios::ate);
 		if (!written || (LONGLONG)written.tellg() != expected_size){
